@@ -194,7 +194,7 @@ def check_case(rec, case):
     eps = case.get('eps', '')
 
     def P():
-        return adapt.build_pda(RP, eps)
+        return adapt.build_pda(RP, eps, scramble=case.get('scr'))
     for name in ('pda_to_one_accepting_state_in_place', 'pda_to_push_pop', 'pda_to_accept_on_empty_stack', 'pda_to_cfg'):
         o = call(P)
         if not o.ok:
@@ -219,6 +219,9 @@ def gen_cases(rec, rng, tier):
         gamma = rng.choice([None, None, '$X', '$@#', 'XY∅'[:rng.randint(1, 3)]])
         RP = pdag.random_pda(rng, rng.randint(1, 4), rng.randint(1, 2), rng.randint(0, 3), rng.randint(1, 8), gamma=gamma, p_eps=rng.choice([0.15, 0.35, 0.6]))
         yield {'cls': 'random_pda' + ('' if gamma is None else '_marker_symbols'), 'ref': RP, 'n': n, 'eps': rng.choice(['', '_', 'ε'])}
+        RPc = pdag.colliding_names(rng, RP)
+        if RPc is not None:
+            yield {'cls': 'colliding_state_and_stack_names', 'ref': RPc, 'n': n, 'eps': ''}
         if rng.random() < 0.4:
             names = ['q_accept1', 'q_initial1', 'M1', 'M2', 'q_accept2'][:len(RP[0])]
             rng.shuffle(names)
@@ -232,4 +235,4 @@ def run(rec, rng, tier):
         check_case(rec, rc)
         return
     for case in gen_cases(rec, rng, tier):
-        check_case(rec, case)
+        check_case(rec, common.with_scramble(case))
